@@ -435,3 +435,16 @@ def c07(run):
     run.cov['rule'] = ('57 byte-input entry points x {valid encodings of the 6 message kinds, keys of all 24 algorithms + 4 ECDH curves, key set, claims, KDF context, recipient; 6 (thorough 120) mutations of each; 90 odd-shaped well-formed items with null / wrong-typed members at every position; generated items; random bytes; JSON / text inputs; 1 MiB inputs}; '
                        'every key-to-implementation, conversion and accessor entry point x valid keys with each member replaced by 40 odd values or dropped; all 24 algorithms x argument lengths 0..4096 (thorough 70000) x wrong-size nonces, tags, signatures; coverage of the translator\'s API inventory checked in Coq')
     return D.finish(run, 'proof')
+
+
+@check('C19')
+def c19(run):
+    run.trusted += ['translator T10: SSA store / map-update / copy effects per function, rooted at receiver fields, parameters and package-level variables (golang.org/x/tools/go/ssa); T3: Register call sites and their enclosing functions',
+                    'Go race detector (go build -race) and the Go scheduler: the conc stream samples interleavings, it does not enumerate them',
+                    'Go standard library objects held by the implementations (cipher.Block, cipher.AEAD, *ecdh.PrivateKey, hash constructors) are documented safe for concurrent use; not analysed']
+    run.assumptions += ['partial: data-race freedom and schedule independence of the running code are observed (16 goroutines x thousands of operations under the race detector), not proved; the theorems cover write-freedom of the shared methods over the regenerated effect inventory and the interleaving argument for state-preserving operations',
+                        'key.Key maps are not to be mutated (SetOps / SetKid / Set) while shared: those are writers by design and outside the property']
+    D.prove(run, extra_targets=['Model/Conc.vo'])
+    D.race_oracle(run, 'conc')
+    run.cov['rule'] = ('one shared instance of each of the 24 algorithm implementations (obtained through the registry), of an ECDH object per curve, of the Key factories on a shared key, of one Validator and of shared Verifiers, each used by 16 goroutines x 120 (thorough 2500) operations over 32 inputs; deterministic results compared byte for byte with the sequential ones, randomised signatures verified; built and run with the Go race detector')
+    return D.finish(run, 'proof', 'PARTIAL: write-freedom of the shared methods (over the regenerated SSA effect inventory) and the interleaving argument are theorems; data-race freedom and schedule independence of the running code are sampled by the conc stream under the Go race detector, not proved')
